@@ -25,6 +25,7 @@ META = {
 META["explanation"] += ' R03.2 treats Arc::try_unwrap as racy (two concurrent last releases can both fail; only Arc::into_inner is atomic); R19.6 / R19.7 are evaluated here: every owner handle releases its share exactly once and no field of a live handle is replaced (clone_from / mem::replace / assignment).'
 META["explanation"] += ' The eyeball poll typestate incl. re-arm pairing (R02.7) is evaluated here: polling again after the end answers None again.'
 META["explanation"] += ' R03.8 the close function stores the closed sentinel on every path to its return. Shared: R01.5 (the sentinel is written by close only; every initialiser of the metadata - also a derived Default - starts at a version that is not the sentinel) and R19.8 (no leaked share of the owner counter, else nobody is ever last).'
+META["explanation"] += ' R03.5 / R19.1 treat fallback combinators (unwrap_or_default, unwrap_or_else, or_else, map_or ..) on a failed upgrade as a fresh counter. R01.4e every Ready(Some) of a subscriber poll path (both flavours) is dominated by the poll leaf. R03.9 asserting non-blocking acquisitions (try_read / try_write / try_lock + unwrap, and the Lock helpers built from them) are called from Drop impls only.'
 
 
 def run(ctx):
@@ -82,6 +83,8 @@ def run(ctx):
 
     # R03.6 closed => None, never parked ---------------------------------------
     leaf.check_closed_clause(ctx, "R03.6", sentinel)
+    from . import c16
+    c16.ready_from_leaf(ctx, "R01.4e")   # ... and no poll path answers Some without asking the leaf (a reset subscriber after the end)
     # "always once the last one is gone": a subscriber parked around the close must still be woken / see the sentinel (C02 clauses)
     from . import c02
     leaf.check_critical_section(ctx, "R02.1")
@@ -106,6 +109,7 @@ def run(ctx):
         c19.r19_6(ctx, counter)
         c19.r19_7(ctx, counter)
         c19.r19_8(ctx, counter)   # a leaked share of the owner counter: nobody is ever the last owner
+    r03_9(ctx)
     # R03.8 the close function marks the state closed on every path (no "nobody is parked" early return before the store)
     cb = close_fn.built
     stores = sorted({loc[0] for loc, s_ in assigns_to_field(cb, "version")})
@@ -260,6 +264,55 @@ def check_into_shared(ctx, f, close_fn):
                     "a normal path returns from into_shared without forgetting `this`")
 
 
+def r03_9(ctx):
+    """asserting non-blocking acquisitions (`try_read().unwrap()` and the Lock helpers built from it) are sound only where nobody
+    else can hold the lock: in the Drop of the last owner. Anywhere else they panic when a writer is active."""
+    F = ctx.facts
+    asserting = []
+    for g in F.find(crate=EY):
+        b = g.built
+        if not b:
+            continue
+        for blk, t in b.calls(r"(Result|Option)::<.*>::(unwrap|expect)$"):
+            e = b.expr_of_op(t["args"][0])
+            if contains(e, lambda x: x[0] == "call" and ecall_matches(x, r"::try_(read|write|lock)(_owned)?$")):
+                asserting.append((g, blk))
+    names = {g.name for g, _ in asserting if g.raw.get("impl_trait") == "lock::Lock"}
+    helpers = {g.key for g, _ in asserting}
+    n = 0
+    for g, blk in asserting:
+        if g.raw.get("impl_trait") == "lock::Lock":
+            continue
+        n += 1
+        root = root_fn(F, g)
+        ok = root.raw.get("impl_trait") == "std::ops::Drop"
+        ctx.verdict(ok, "R03.9", root, "asserting-acquisition-only-in-drop", g.built.line_at((blk, 10 ** 6)), "try-lock + unwrap inside a Drop impl",
+                    "`%s` takes the state lock with a non-blocking attempt and unwraps it outside the last owner's Drop: it panics whenever another handle holds the write lock at that moment" % root.path)
+    for g in F.find(crate=EY):
+        b = g.built
+        if not b or g.key in helpers:
+            continue
+        for blk, t in b.calls():
+            c = F.local_callee(g, t)
+            nm = (t.get("callee") or "").split("::")[-1]
+            if (c is not None and c.key in helpers) or (c is None and nm in names and "Lock" in (t.get("callee") or "")):
+                n += 1
+                root = root_fn(F, g)
+                from ..inline import default_keep
+                # a private helper is judged by the entry points it is reached from
+                entries = [root] if default_keep(root) else (entry_callers(F, root) or [root])
+                ok = all(e_.raw.get("impl_trait") == "std::ops::Drop" for e_ in entries)
+                if not ok:
+                    root = [e_ for e_ in entries if e_.raw.get("impl_trait") != "std::ops::Drop"][0]
+                ctx.verdict(ok, "R03.9", root, "asserting-acquisition-only-in-drop", b.line_at((blk, 10 ** 6)), "`%s` is called from a Drop impl" % nm,
+                            "`%s` calls `%s` (a non-blocking acquisition that is unwrapped) outside the last owner's Drop: the call panics whenever another handle holds the write lock at that moment, instead of answering" % (root.path, nm))
+    ctx.floor("R03.9", n, 1)
+
+
+# combinators that supply a substitute when an upgrade / lookup fails
+FALLBACK = r"::unwrap_or_default$|::unwrap_or_else$|::unwrap_or$|::or_else$|Option::<.*>::or$|::map_or$|::map_or_else$|::get_or_insert(_with)?$|::or_insert(_with)?$|::get_or_init$"
+
+
 def check_upgrade(ctx, f):
     F = ctx.facts
     b = f.built
@@ -292,7 +345,7 @@ def check_upgrade(ctx, f):
         for name, op in zip(rv["fields"], rv["ops"]):
             e = b.expr_of_op(op)
             ups = find_all(e, lambda x: x[0] == "call" and ecall_matches(x, r"^std::sync::Weak::<.*>::upgrade$"))
-            fresh = find_all(e, lambda x: x[0] == "call" and ecall_matches(x, r"^std::sync::Arc::<.*>::(new|default|new_cyclic)$|Default>::default$"))
+            fresh = find_all(e, lambda x: x[0] == "call" and ecall_matches(x, r"^std::sync::Arc::<.*>::(new|default|new_cyclic)$|Default>::default$|" + FALLBACK))
             good = [u for u in ups if u[3] and mentions_field(u[3][0], name) and contains(u[3][0], lambda x: x[0] == "param" and x[1] == 1)]
             where = b.line_at(loc)
             if fresh:
